@@ -61,6 +61,12 @@ def body(run):
                 e = json.loads(rj["line"])
                 if e.get("panic"):
                     return "bind:panic"
+                t, a, b = e["targets"], e["after"], e["block"]
+                if e.get("single") and len(t) == 1 and t[0]["name"] == "" and a[0]["name"] == "" and len(b) == 1:
+                    # a single ResultColumn used as a Result of its own: the only discrepancy is that the name it
+                    # inferred is not kept (everything else as specified)
+                    if (e["err"] == "" and a[0]["data"] in (b[0]["data"], "empty")) or (e["err"] != "" and a[0]["data"] == t[0]["data"]):
+                        return "bind:single-result-column:inferred-name-not-kept"
                 if e["err"] == "":
                     return "bind:accepted-incompatible"
                 return "bind:refused-or-misbound"
